@@ -27,25 +27,58 @@ B09_RESERVED2 = {"IF", "ON", "OR", "TO", "DO", "PI", "SQ"}
 GENERATED = {"display", "play", "pid", "erno", "errnum", "joy0x", "joy0y", "joy1x", "joy1y"}
 
 
-def name_program(nm):
+KINDS4 = ("ns", "ss", "na", "sa")
+
+
+def name_program(nm, mask=15):
+    """mask selects which of the four variables built on the name (numeric/string scalar/array) occur at all: with a
+    subset, an identifier of an absent kind showing up in the output is an identity error."""
     N, S = nm, nm + "$"
     v = lambda n: ("var", n)
     a = lambda n, i: ("arr", n, [i])
     one, two = X.num(1), X.num(2)
-    return [
-        (10, [("dim", [(N, [5], ["5"]), (S, [5], ["5"])])]),
-        (20, [("let", v(N), one, False), ("let", v(S), ("str", "A"), False)]),
-        (30, [("let", a(N, one), ("bin", "+", v(N), a(N, two)), False),
-              ("let", a(S, one), ("bin", "+", v(S), a(S, two)), False)]),
-        (40, [("for", N, one, two, None), ("next", [N])]),
-        (45, [("for", N, one, two, None), ("for", "QA", one, two, None), ("for", "QB", one, two, None), ("next", ["QB", "QA"]), ("next", [])]),
-        (50, [("read", [v(N), v(S), a(N, v(N)), a(S, v(N))])]),
-        (60, [("input", None, [v(N), v(S)], False)]),
-        (70, [("let", v("Q"), ("fn", "VARPTR", [v(N)]), False), ("let", v("Q"), ("fn", "VARPTR", [v(S)]), False),
-              ("let", v("Q"), ("fn", "VARPTR", [a(N, one)]), False)]),
-        (80, [("let", v("Q"), ("fn", "LEN", [v(S)]), False), ("print", [("e", v(N)), ("sep", ";"), ("e", v(S))], None)]),
-        (90, [("data", [("n", 1.0, ["1"]), ("u", "A"), ("n", 2.0, ["2"]), ("u", "B")])]),
-    ]
+    ns, ss, na, sa = [bool(mask & (1 << i)) for i in range(4)]
+    idx = v(N) if ns else one
+    L = []
+
+    def line(num, *stmts):
+        st = [x for x in stmts if x is not None]
+        if st:
+            L.append((num, st))
+
+    dims = ([(N, [5], ["5"])] if na else []) + ([(S, [5], ["5"])] if sa else [])
+    line(10, ("dim", dims) if dims else None)
+    line(20, ("let", v(N), one, False) if ns else None, ("let", v(S), ("str", "A"), False) if ss else None)
+    line(30, ("let", a(N, one), ("bin", "+", v(N) if ns else two, a(N, two)), False) if na else None,
+         ("let", a(S, one), ("bin", "+", v(S) if ss else ("str", "Z"), a(S, two)), False) if sa else None)
+    if ns:
+        line(40, ("for", N, one, two, None), ("next", [N]))
+        line(45, ("for", N, one, two, None), ("for", "QA", one, two, None), ("for", "QB", one, two, None), ("next", ["QB", "QA"]), ("next", []))
+    else:
+        line(45, ("for", "QA", one, two, None), ("for", "QB", one, two, None), ("next", ["QB", "QA"]))
+    rd = ([v(N)] if ns else []) + ([v(S)] if ss else []) + ([a(N, idx)] if na else []) + ([a(S, idx)] if sa else [])
+    line(50, ("read", rd))
+    inp = ([v(N)] if ns else []) + ([v(S)] if ss else [])
+    line(60, ("input", None, inp, False) if inp else None)
+    line(70, ("let", v("Q"), ("fn", "VARPTR", [v(N)]), False) if ns else None,
+         ("let", v("Q"), ("fn", "VARPTR", [v(S)]), False) if ss else None,
+         ("let", v("Q"), ("fn", "VARPTR", [a(N, one)]), False) if na else None,
+         ("let", v("Q"), ("fn", "VARPTR", [a(S, one)]), False) if sa else None)
+    pr = []
+    for x in ([v(N)] if ns else []) + ([v(S)] if ss else []) + ([a(N, two)] if na else []) + ([a(S, two)] if sa else []):
+        pr += [("e", x), ("sep", ";")]
+    line(80, ("let", v("Q"), ("fn", "LEN", [v(S) if ss else ("str", "AB")]), False), ("print", pr[:-1], None))
+    data = []
+    for t in rd:
+        data.append(("u", "A") if t[1].endswith("$") else ("n", 1.0, ["1"]))
+    line(90, ("data", data))
+    return L
+
+
+def expected_ids(nm, mask):
+    c = canon(nm).lower()
+    four = [c, c + "$", "arr_" + c, "arr_" + c + "$"]
+    return {four[i] for i in range(4) if mask & (1 << i)} | {"q", "qa", "qb"}
 
 
 def identifiers(out):
@@ -66,8 +99,9 @@ def run_case(case):
     obs = {"counters": {}, "viols": [], "sets": {}}
     if case["kind"] == "name":
         nm = case["name"]
-        obs["key"] = "name|" + nm
-        prog = name_program(nm)
+        obs["key"] = "name|%s|%d" % (nm, case.get("mask", 15))
+        mask = case.get("mask", 15)
+        prog = name_program(nm, mask)
         text = render(prog)
         conv = harness.convert(text, initialize_vars=case.get("init", False))
         if not conv["ok"]:
@@ -77,7 +111,8 @@ def run_case(case):
             return obs
         r = identifiers(conv["out"])
         c = canon(nm).lower()
-        expected = {c, c + "$", "arr_" + c, "arr_" + c + "$", "q", "qa", "qb"}
+        expected = expected_ids(nm, mask)
+        all4 = expected_ids(nm, 15)
         if r is None:
             procs0, perr = harness.parse_b09(conv["out"])
             if perr and "closes FOR" in (perr.get("msg") or "") or (perr and "NEXT" in (perr.get("msg") or "")):
@@ -112,6 +147,17 @@ def run_case(case):
         if missing:
             obs["viols"].append({"sig": "C09/identity-lost/" + ("array" if any(m.startswith("arr_") for m in missing) else "scalar"),
                                  "detail": dict(detail, missing=sorted(missing))})
+        if r is not None:
+            # class consistency at the positions the generator knows: a text literal is only ever assigned to a $ name
+            # and a number only to a name without $ (an initialisation loop writing into the wrong one of the four
+            # variables built on a name is an identity error even when all four exist)
+            for st in main.body:
+                if st.k == "assign" and st.e[0] in ("str", "num") and st.lv[1] in all4:
+                    obs["counters"]["literal_assignments_checked"] = obs["counters"].get("literal_assignments_checked", 0) + 1
+                    if (st.e[0] == "str") != st.lv[1].endswith("$"):
+                        obs["viols"].append({"sig": "C09/wrong-class-target/" + ("array" if st.lv[2] else "scalar"),
+                                             "detail": dict(detail, target=st.lv[1], value=st.e[:2])})
+                        break
         clash = {i for i in user if i.lower() in GENERATED or i.lower().startswith("tmp_")}
         if clash:
             obs["viols"].append({"sig": "C09/collides-with-generated", "detail": dict(detail, clash=sorted(clash))})
@@ -166,6 +212,11 @@ def cases(tier, seed):
     names = list(letters) + [a + b for a in letters for b in second]
     for i, nm in enumerate(names):
         yield {"kind": "name", "name": nm, "init": i % 2 == 0, "sample": i % 300 == 5}
+        masks = [1 + (i * 7 + seed) % 14, 1 + (i * 3 + 5 + seed) % 14] if tier == "quick" else range(1, 15)
+        for m in masks:
+            yield {"kind": "name", "name": nm, "mask": m, "init": (i + m) % 2 == 1}
+            if tier != "quick":
+                yield {"kind": "name", "name": nm, "mask": m, "init": (i + m) % 2 == 0}
     for nm in sorted(B09_RESERVED2):
         # longer spellings of the reserved two-letter names are the same Color BASIC variable
         for tail in ("X", "9", "XY"):
